@@ -400,11 +400,14 @@ def rule_inc1(A: Analysis, rep):
     keys = set()
     for n in walk_local(fi.node):
         if isinstance(n, ast.Subscript) and norm(n.value) == "self._include_cache":
-            keys.add(norm(n.slice))
+            keys.add(A.xtext(n.slice, fi, stop=["include_path"]))
         if isinstance(n, ast.Compare) and len(n.ops) == 1 and isinstance(n.ops[0], (ast.In, ast.NotIn)) and norm(n.comparators[0]) == "self._include_cache":
-            keys.add(norm(n.left))
+            keys.add(A.xtext(n.left, fi, stop=["include_path"]))
     cache_tests = [n for n in g.nodes if n.kind == "test" and "self._include_cache" in norm(n.ast)]
-    okk = keys <= {"str(include_path)"} and all(g.all_paths_pass(g.entry, t_, res, skip_labels=skip) for t_ in cache_tests)
+    # a local that holds the key must itself be computed after the path was resolved
+    key_defs = [g.node_of(d) for nm_ in {x.id for n in walk_local(fi.node) if isinstance(n, ast.Subscript) and norm(n.value) == "self._include_cache" for x in ast.walk(n.slice) if isinstance(x, ast.Name)}
+                for d in A.defs(fi, nm_) if isinstance(d, (ast.Assign, ast.AnnAssign)) and nm_ != "include_path" and g.nodes_of(d)]
+    okk = keys <= {"str(include_path)"} and all(g.all_paths_pass(g.entry, t_, res, skip_labels=skip) for t_ in cache_tests + key_defs)
     rep.check(okk, "INC1", "include cache keyed by the resolved path", fi.node, "", "the include cache is keyed by %s (must be the resolved absolute path, looked up after resolution)" % sorted(keys))
     # the included file is evaluated in a scope without Conductor's symbols (cannot define tasks or include)
     okx = False
